@@ -1,4 +1,4 @@
-"""C11 — stop-the-world bracket: stop once, scan each mutator once, resume once (+ C13's ordering oracles)."""
+"""C11 — stop-the-world bracket: stop once, scan each mutator once, resume once."""
 import sys
 from checks import sched_common as S
 
@@ -11,10 +11,7 @@ THEOREMS = ["Mmtk.Sched.stop_before_trace", "Mmtk.Sched.stw_open_means_stopped",
 KEYS = S.COMMON_KEYS + ("gc:scan-outside-stw-packet", "gc:scan-before-stop", "gc:scan-twice", "gc:scan-count",
                         "gc:scan-passes", "gc:resume-outside-gc-end", "gc:resume-while-running", "gc:resume-without-stop",
                         "gc:stw-packet-without-stop", "gc:unblocked-before-resume", "sched:stw-open-at-resume",
-                        "sched:not-quiescent",
-                        # C13 ordering (VMProcessWeakRefs sentinel rounds), checked on the same runs
-                        "gc:weak-outside-sentinel", "gc:weak-before-closure", "gc:weak-after-false",
-                        "gc:weak-not-finished", "gc:forward-weak-count")
+                        "sched:not-quiescent")
 
 META = {
     "text": "Lean model Model/Sched.lean: stopAll (StopMutators calls stop_all_mutators), openFirst (notify_mutators_paused "
@@ -27,14 +24,12 @@ META = {
             "workers parked, no packet running, every STW bucket closed and empty, every local deque empty "
             "(resume_once_after_all); while mutators are not stopped every STW bucket is closed (no_stw_after_resume). Tie: "
             "event-log conformance of real GCs with 1-4 mutators on all plans; binding callbacks VmStopBegin/End, "
-            "VmScanMutator, VmResume, VmBlockEnter/Leave, VmProcessWeak, VmForwardWeak are checked against the model state "
+            "VmScanMutator, VmResume, VmBlockEnter/Leave are checked against the model state "
             "and by Python oracles on the log alone.",
     "note": "'Each mutator scanned exactly once' cannot be stated about abstract packets; it is checked on every replayed GC "
             "(per root-scanning pass: MarkCompact scans every mutator a second time in SecondRoots by design — the literal "
             "'exactly once per collection' does not hold for that plan). 'Requester blocked until resume' is a binding-side "
-            "oracle. C13's ordering clauses (process_weak_refs only after the closure stages are drained; repeated while it "
-            "returns true; forward_weak_refs once iff the plan forwards after liveness) are oracle/monitor checks here, "
-            "without their own theorem.",
+            "oracle.",
     "technique": "Lean 4 proof: inductive invariants of an n-thread model; event-log conformance monitor + binding-callback oracles",
     "category": "proof",
 }
